@@ -68,6 +68,11 @@ POSITIONS = {
     "plain-filter-before-interpolation": (ok_filter, lambda s: [":plain", "\t" + s + '#{"Z"}'], lambda s: s + "Z\n"),
     "preserve-filter-before-interpolation": (ok_filter, lambda s: [":preserve", "\t" + s + '#{"Z"}'], lambda s: s + "Z&#x000A;\n"),
     "css-filter-before-interpolation": (ok_filter, lambda s: [":css", "\t" + s + '#{"Z"}'], lambda s: "<style>\n" + s + "Z\n</style>"),
+    "plain-filter-after-interpolation": (ok_filter, lambda s: [":plain", '\t#{"Z"}' + s], lambda s: "Z" + s + "\n"),
+    "preserve-filter-after-interpolation": (ok_filter, lambda s: [":preserve", '\t#{"Z"}' + s], lambda s: "Z" + s + "&#x000A;\n"),
+    "text-line-before-interpolation": (ok_text, lambda s: ["%p", "\t" + s + '#{"Z"}'], lambda s: "<p>\n" + s + "Z\n</p>\n"),
+    # (a line cannot begin with an interpolation: `#` at the start of content opens an id)
+    "text-line-after-interpolation": (ok_text, lambda s: ["%p", '\tx#{"Z"}' + s], lambda s: "<p>\nxZ" + s + "\n</p>\n"),
     "escaped-filter": (ok_filter, lambda s: [":escaped", "\t" + s], lambda s: esc(s) + "\n"),
     "tag": (ok_ident, lambda s: ["%" + s + " x"], lambda s: "<" + s + ">x</" + s + ">\n"),
     "id": (ok_ident, lambda s: ["%p#" + s + " x"], lambda s: '<p id="' + esc(s) + '">x</p>\n'),
